@@ -1,52 +1,745 @@
 //go:build verif
 
+// Harness for C08: the three real JSON-RPC method tables of rpc/handlers.go mounted on real
+// jsonrpc.Servers over real Blockchains (both state backends) holding chains manufactured by
+// juno itself (with reverts, re-grown forks and L1-head positions); every read method x every
+// block-id kind x transaction hashes / indices x (contract, slot); each answer is projected to a
+// canonical line and compared with (1) the property oracle computed from the generator's bundles
+// and abstract states (-> violations, with a replay) and (2) the compiled Lean model, which
+// transcribes the handlers (-> correspondence), and field by field with the bundles (deep check).
 package main
 
 import (
+	"encoding/json"
 	"fmt"
+	"os"
+	"sort"
+	"strings"
 
-	"github.com/NethermindEth/juno/core"
+	"github.com/NethermindEth/juno/core/felt"
 	"verif/harness/lib"
 )
 
+var backendName = []string{"legacy", "new"}
+
+type harness struct {
+	f        lib.Flags
+	res      *lib.Result
+	drv      *lib.Driver
+	programs map[string]struct{} // version/method/id-kind/arg-kind combinations validated
+	checked  int                 // answers compared with the oracle
+	replay   *replaySpec
+}
+
+type replaySpec struct {
+	Scenario int `json:"scenario"`
+	Round    int `json:"round"`
+	Query    int `json:"query"`
+}
+
+type scenarioParams struct {
+	ops        int // chain operations
+	every      int // query round after every n-th operation
+	pairs      int // (contract, slot) pairs per block id
+	txPerKind  int
+	consistBlk int // blocks per round for the cross-method consistency pass
+}
+
 func main() {
 	f := lib.ParseFlags()
-	r := lib.NewRNG(f.Seed)
-	g := lib.NewChainGen(r, false, lib.DefaultGenOptions())
-	bc, _ := lib.NewNode(g.Net, true)
-	n, err := newRPCNode(bc, true)
+	if os.Getenv("C08_PROBE") != "" {
+		probeStale()
+		return
+	}
+	res := lib.NewResult("case = one JSON-RPC request (method, block id, arguments) answered by one API version on one state backend; " +
+		"key = version/backend/method/id kind/argument kind/round; non-trivial = the request resolves to a block of a chain " +
+		"of height >= 2 or must be answered with a not-found error on a non-empty chain")
+	h := &harness{f: f, res: res, programs: map[string]struct{}{}}
+	drv, err := lib.StartDriver(f.Driver)
 	if err != nil {
-		panic(err)
+		res.Note("driver: %v", err)
+		lib.Finish(f, res)
 	}
-	for i := 0; i < 5; i++ {
-		b, err := g.Next(nil)
+	defer drv.Close()
+	h.drv = drv
+
+	var only *int
+	if f.Replay != "" {
+		raw, err := os.ReadFile(f.Replay)
 		if err != nil {
-			panic(err)
+			res.Note("replay: %v", err)
+			lib.Finish(f, res)
 		}
-		if err := lib.StoreOn(bc, b); err != nil {
-			panic(err)
+		// layout written by lib/vcheck.py: {"seed":…, "tier":…, "replay": {scenario, round, query, …}}
+		var file struct {
+			Seed   uint64     `json:"seed"`
+			Tier   string     `json:"tier"`
+			Replay replaySpec `json:"replay"`
+		}
+		if err := json.Unmarshal(raw, &file); err != nil {
+			res.Note("replay: %v", err)
+			lib.Finish(f, res)
+		}
+		h.replay = &file.Replay
+		if file.Seed != 0 {
+			h.f.Seed = file.Seed
+		}
+		if file.Tier != "" {
+			h.f.Tier = file.Tier
+		}
+		only = &h.replay.Scenario
+	}
+
+	nScen := h.f.Scale(6, 40)
+	sp := scenarioParams{ops: h.f.Scale(26, 60), every: h.f.Scale(4, 5), pairs: h.f.Scale(3, 5), txPerKind: h.f.Scale(3, 6), consistBlk: h.f.Scale(2, 4)}
+	root := lib.NewRNG(h.f.Seed)
+	for s := 0; s < nScen; s++ {
+		r := root.Fork(uint64(s))
+		if only != nil && *only != s {
+			continue
+		}
+		if err := h.scenario(s, r, sp); err != nil {
+			res.Note("scenario %d: %v", s, err)
+			res.Mismatch(lib.Mismatch{Sig: "scenario-aborted", Input: s, Impl: err.Error()})
 		}
 	}
-	_ = bc.SetL1Head(&core.L1Head{BlockNumber: 2, BlockHash: g.Bundles[2].Block.Hash, StateRoot: g.Bundles[2].Block.GlobalStateRoot})
-	for _, v := range versions {
-		for _, q := range []struct {
-			m string
-			p any
-		}{
-			{"starknet_blockNumber", nil},
-			{"starknet_blockHashAndNumber", nil},
-			{"starknet_getBlockWithTxHashes", []any{map[string]any{"block_number": 1}}},
-			{"starknet_getBlockWithTxs", map[string]any{"block_id": "latest"}},
-			{"starknet_getBlockWithReceipts", map[string]any{"block_id": "l1_accepted"}},
-			{"starknet_getStateUpdate", map[string]any{"block_id": map[string]any{"block_number": 3}}},
-			{"starknet_getBlockWithTxHashes", []any{map[string]any{"block_number": 9}}},
-			{"starknet_getTransactionByBlockIdAndIndex", []any{map[string]any{"block_number": 9}, 0}},
-			{"starknet_getStorageAt", []any{"0x1", "0x0", map[string]any{"block_hash": "0x0"}}},
-			{"starknet_getNonce", []any{"pre_confirmed", "0x1"}},
-			{"starknet_getNonce", []any{"pending", "0x1"}},
-		} {
-			resp := n.call(v, q.m, q.p)
-			fmt.Printf("%s %s %v -> code=%d msg=%q broken=%q\n%s\n", v, q.m, q.p, resp.Code, resp.Msg, resp.Broken, resp.Result)
+	res.SetExtra("programs", len(h.programs))
+	res.SetExtra("disagreements_checked", h.checked)
+	lib.Finish(h.f, res)
+}
+
+// scenario builds one chain history and interrogates the nodes along the way.
+func (h *harness) scenario(s int, r *lib.RNG, sp scenarioParams) error {
+	opt := lib.DefaultGenOptions()
+	opt.EmptyDiffs = 5
+	w, err := newWorld(r, s%2 == 1, opt)
+	if err != nil {
+		return err
+	}
+	w.startVersion = s / 2
+	lines := []string{"reset"}
+	round := 0
+	doRound := func() error {
+		err := h.queryRound(s, round, w, r, sp, &lines)
+		round++
+		return err
+	}
+	// the empty chain
+	if err := doRound(); err != nil {
+		return err
+	}
+	if s%3 == 2 {
+		// an L1 head recorded before any block exists
+		if err := w.setL1(uint64(r.Intn(3))); err != nil {
+			return err
+		}
+		lines = append(lines, fmt.Sprintf("l1 %x", *w.l1))
+		if err := doRound(); err != nil {
+			return err
 		}
 	}
+	pendingReverts := 0
+	for op := 0; op < sp.ops; op++ {
+		ht := w.height()
+		switch {
+		case pendingReverts > 0 && ht > 0:
+			pendingReverts--
+			if err := w.revert(); err != nil {
+				return err
+			}
+			lines = append(lines, "revert")
+			h.res.Hit("op:revert")
+		case ht >= 3 && r.Chance(1, 8):
+			// a reorg: drop 1..3 blocks (the next operations re-grow a different fork)
+			pendingReverts = r.Intn(3)
+			if err := w.revert(); err != nil {
+				return err
+			}
+			lines = append(lines, "revert")
+			h.res.Hit("op:revert")
+		case ht >= 1 && r.Chance(1, 5):
+			// L1 head positions: genesis, inside, the head, just ahead, far ahead
+			var n uint64
+			switch r.Intn(6) {
+			case 0:
+				n = 0
+			case 1:
+				n = uint64(ht - 1)
+			case 2:
+				n = uint64(ht)
+			case 3:
+				n = uint64(ht + 1 + r.Intn(5))
+			default:
+				n = uint64(r.Intn(ht))
+			}
+			if err := w.setL1(n); err != nil {
+				return err
+			}
+			lines = append(lines, fmt.Sprintf("l1 %x", n))
+			h.res.Hit("op:set-l1")
+			switch {
+			case n >= uint64(ht):
+				h.res.Hit("l1:ahead-of-chain")
+			case n == uint64(ht-1):
+				h.res.Hit("l1:at-head")
+			default:
+				h.res.Hit("l1:inside")
+			}
+		default:
+			if err := w.next(); err != nil {
+				return err
+			}
+			lines = append(lines, storeLine(w.g.Head()))
+			h.res.Hit("op:store")
+			h.res.Hit("block-version:" + w.g.Head().Block.ProtocolVersion)
+		}
+		w.traceSlot(op)
+		if (op+1)%sp.every == 0 || op == sp.ops-1 {
+			if err := doRound(); err != nil {
+				return err
+			}
+		}
+	}
+	if s%3 == 0 && w.height() > 0 {
+		// take the chain down to nothing: every hash is now a reverted one
+		for w.height() > 0 {
+			if err := w.revert(); err != nil {
+				return err
+			}
+			lines = append(lines, "revert")
+			h.res.Hit("op:revert")
+			if w.height() == 1 || w.height() == 0 {
+				if err := doRound(); err != nil {
+					return err
+				}
+			}
+		}
+		h.res.Hit("chain:reverted-to-empty")
+	}
+	return nil
+}
+
+func isStateMethod(m string) bool {
+	switch m {
+	case "storage", "nonce", "classHashAt", "class", "classAt":
+		return true
+	}
+	return false
+}
+
+// queryRound generates the queries of a checkpoint, asks the model, asks every node on every
+// version, and compares.
+func (h *harness) queryRound(s, round int, w *world, r *lib.RNG, sp scenarioParams, pending *[]string) error {
+	qs := w.round(r, sp.pairs, sp.txPerKind)
+	// model answers: pending chain operations first, then one line per (query, version)
+	lines := append([]string{}, *pending...)
+	nOps := len(lines)
+	*pending = (*pending)[:0]
+	type slot struct{ q, v, n int }
+	var slots []slot
+	for qi, q := range qs {
+		for vi, ver := range versions {
+			if ver == "v8" && q.id != nil && q.id.tag == "pre" && !isStateMethod(q.method) {
+				continue // v8 `pending` block answers are synthetic; not modelled, not specified
+			}
+			for ni := range w.nodes {
+				lines = append(lines, q.leanLine(ver, backendName[ni]))
+				slots = append(slots, slot{qi, vi, ni})
+			}
+		}
+	}
+	answers, err := h.drv.AskAll(lines)
+	if err != nil {
+		return fmt.Errorf("driver: %w", err)
+	}
+	for i := 0; i < nOps; i++ {
+		if answers[i] != "ok" {
+			h.res.Mismatch(lib.Mismatch{Sig: "model-rejects-chain-operation", Input: lines[i], Model: answers[i], Impl: "ok"})
+		}
+	}
+	model := map[slot]string{}
+	for i, sl := range slots {
+		model[sl] = answers[nOps+i]
+	}
+
+	for qi, q := range qs {
+		if h.replay != nil && !(h.replay.Round == round && h.replay.Query == qi) {
+			continue
+		}
+		got := make([][]string, len(versions)) // [version][backend] projection line
+		violated := make([]bool, len(versions)) // an answer of this version was already reported
+		exps := make([]expectation, len(versions))
+		for vi, ver := range versions {
+			exp := w.expect(q, ver)
+			exps[vi] = exp
+			got[vi] = make([]string, len(w.nodes))
+			for ni, node := range w.nodes {
+				resp := node.call(ver, rpcName[q.method], q.params(ver))
+				line, obj := h.lineOf(w, q, resp)
+				got[vi][ni] = line
+				key := fmt.Sprintf("%s/%s/%s/%d/%d", ver, backendName[ni], q.kindKey(), s, round)
+				nontrivial := w.height() >= 2 || (w.height() > 0 && exp.resolved < 0)
+				h.res.Case(key, nontrivial)
+				h.res.Hit("method:" + q.method)
+				if q.id != nil {
+					h.res.Hit("id:" + q.id.kind)
+				}
+				if q.sub != "" {
+					h.res.Hit("arg:" + q.sub)
+				}
+				if exp.skip {
+					h.res.Hit("answer:unspecified(v8 pending block)")
+				} else {
+					h.res.Hit("answer:" + answerClass(line))
+				}
+				if q.named {
+					h.res.Hit("params:by-name")
+				} else {
+					h.res.Hit("params:positional")
+				}
+				h.programs[ver+"/"+q.kindKey()] = struct{}{}
+				ctx := &caseCtx{s: s, round: round, qi: qi, w: w, q: q, ver: ver, backend: backendName[ni]}
+
+				// (1) the property oracle
+				sig, stale := "", false
+				if !exp.skip {
+					h.checked++
+					if !exp.accepts(line) {
+						if q.method == "storage" {
+							w.debugStorage(&q.addr, &q.key)
+						}
+						sig, stale = h.violate(ctx, exp, line, resp)
+						violated[vi] = true
+					}
+				}
+				// (2) correspondence with the Lean model. The model is a model of the handlers and
+				// of the chain, not of the trie: an answer already attributed to the stale-leaf
+				// defect of the new state backend is not held against it.
+				if m, ok := model[slot{qi, vi, ni}]; ok && !stale {
+					h.res.Compared(1)
+					if m != line {
+						h.res.Mismatch(lib.Mismatch{Sig: "model:" + ver + ":" + q.kindKey(), Input: ctx.request(), Model: m, Impl: line})
+					}
+				}
+				if exp.skip || sig != "" {
+					continue
+				}
+				// (3) deep comparison with the bundle
+				if obj != nil && exp.resolved >= 0 {
+					h.res.Hit("deep-compared:" + q.method)
+					if p := h.deep(w, q, ver, obj, exp.resolved); len(p) > 0 {
+						sort.Strings(p)
+						h.res.Violate(lib.Violation{
+							Sig:    fmt.Sprintf("deep:%s:%s:%s", ver, q.method, fieldOf(p[0])),
+							What:   fmt.Sprintf("%s %s on the %s backend answers from the right block but with wrong content: %s", ver, rpcName[q.method], backendName[ni], strings.Join(p, "; ")),
+							Replay: ctx.replay(exp.String(), line),
+						})
+					}
+				}
+			}
+		}
+		// backends and versions must agree wherever the specification is the same
+		for vi := range versions {
+			if got[vi][0] != got[vi][1] && !violated[vi] {
+				ctx := &caseCtx{s: s, round: round, qi: qi, w: w, q: q, ver: versions[vi], backend: "both"}
+				h.res.Violate(lib.Violation{Sig: "backends-disagree:" + versions[vi] + ":" + q.kindKey(),
+					What:   fmt.Sprintf("%s %s: legacy backend answers %q, new backend answers %q", versions[vi], rpcName[q.method], got[vi][0], got[vi][1]),
+					Replay: ctx.replay(exps[vi].String(), got[vi][0]+" / "+got[vi][1])})
+			}
+		}
+		for vi := 1; vi < len(versions); vi++ {
+			if exps[vi].skip || exps[0].skip || exps[vi].String() != exps[vi-1].String() {
+				continue
+			}
+			if got[vi][0] != got[vi-1][0] && exps[vi].accepts(got[vi][0]) && exps[vi-1].accepts(got[vi-1][0]) {
+				ctx := &caseCtx{s: s, round: round, qi: qi, w: w, q: q, ver: versions[vi], backend: backendName[0]}
+				h.res.Violate(lib.Violation{Sig: "versions-disagree:" + q.kindKey(),
+					What:   fmt.Sprintf("%s: %s answers %q, %s answers %q", rpcName[q.method], versions[vi-1], got[vi-1][0], versions[vi], got[vi][0]),
+					Replay: ctx.replay(exps[vi].String(), got[vi][0])})
+			}
+		}
+		h.res.Sample(10, map[string]any{"request": q.describe("v10"), "expected": exps[2].String(), "v8": got[0][0], "v9": got[1][0], "v10": got[2][0]})
+	}
+	// the random choices of the consistency pass are always drawn (a replay must see the same
+	// PRNG stream); the pass itself runs only when it is wanted
+	picks := consistencyPicks(w, r, sp)
+	if h.replay == nil || (h.replay.Round == round && h.replay.Query < 0) {
+		h.consistency(s, round, w, picks)
+	}
+	return nil
+}
+
+func answerClass(line string) string {
+	if strings.HasPrefix(line, "ok") {
+		return "ok"
+	}
+	return strings.SplitN(line, " ", 2)[0]
+}
+
+func fieldOf(problem string) string {
+	f := strings.SplitN(problem, ":", 2)[0]
+	if i := strings.Index(f, "["); i >= 0 {
+		f = f[:i]
+	}
+	return strings.ReplaceAll(f, " ", "-")
+}
+
+// lineOf projects a response to the model's answer line. obj is the decoded result (nil on
+// errors).
+func (h *harness) lineOf(w *world, q *query, resp rpcResp) (string, any) {
+	if resp.Broken != "" {
+		return "broken:" + resp.Broken, nil
+	}
+	if resp.Code != 0 {
+		return errLine(resp.Code), nil
+	}
+	obj, err := decodeJSON(resp.Result)
+	if err != nil {
+		return "malformed:" + err.Error(), nil
+	}
+	if q.method == "class" || q.method == "classAt" {
+		fp, err := classFingerprintJSON(obj)
+		if err != nil {
+			return "malformed:" + err.Error(), nil
+		}
+		if c, ok := w.classPrint[fp]; ok {
+			return "ok " + hxv(c), obj
+		}
+		return "ok unknown-class", obj
+	}
+	line, err := project(q.method, obj)
+	if err != nil {
+		return "malformed:" + err.Error(), nil
+	}
+	return line, obj
+}
+
+// deep runs the field-level comparison appropriate for the method.
+func (h *harness) deep(w *world, q *query, ver string, obj any, n int) problems {
+	o, ok := obj.(jobj)
+	if !ok {
+		return nil
+	}
+	switch q.method {
+	case "blockTxHashes", "blockTxs":
+		p := w.deepHeader(ver, o, n)
+		if q.method == "blockTxs" {
+			txs, _ := o["transactions"].([]any)
+			for i, t := range txs {
+				if to, ok := t.(jobj); ok && i < len(w.g.Bundles[n].Block.Transactions) {
+					p = append(p, deepTx(to, w.g.Bundles[n].Block.Transactions[i], true)...)
+				}
+			}
+		}
+		return p
+	case "blockReceipts":
+		p := w.deepHeader(ver, o, n)
+		txs, _ := o["transactions"].([]any)
+		for i, t := range txs {
+			pair, ok := t.(jobj)
+			if !ok || i >= len(w.g.Bundles[n].Block.Transactions) {
+				continue
+			}
+			if to, ok := pair["transaction"].(jobj); ok {
+				p = append(p, deepTx(to, w.g.Bundles[n].Block.Transactions[i], false)...)
+			}
+			if ro, ok := pair["receipt"].(jobj); ok {
+				p = append(p, w.deepReceipt(ro, n, i, false)...)
+			}
+		}
+		return p
+	case "txByHash":
+		if bn, i, ok := w.findTx(&q.txHash); ok {
+			return deepTx(o, w.g.Bundles[bn].Block.Transactions[i], true)
+		}
+	case "txByIdx":
+		if q.index < len(w.g.Bundles[n].Block.Transactions) {
+			return deepTx(o, w.g.Bundles[n].Block.Transactions[q.index], true)
+		}
+	case "receipt":
+		if bn, i, ok := w.findTx(&q.txHash); ok {
+			return w.deepReceipt(o, bn, i, true)
+		}
+	case "txStatus":
+		if bn, i, ok := w.findTx(&q.txHash); ok {
+			var p problems
+			rc := w.g.Bundles[bn].Block.Receipts[i]
+			got, _ := o["failure_reason"].(string)
+			if rc.Reverted && got != rc.RevertReason {
+				p.addf("failure_reason: want %q got %q", rc.RevertReason, got)
+			}
+			if !rc.Reverted && got != "" {
+				p.addf("failure_reason: present on a succeeded transaction")
+			}
+			return p
+		}
+	case "stateUpdate":
+		return w.deepStateUpdate(ver, o, n)
+	}
+	return nil
+}
+
+// caseCtx is what a replay needs to name a case.
+type caseCtx struct {
+	s, round, qi int
+	w            *world
+	q            *query
+	ver, backend string
+}
+
+func (c *caseCtx) request() map[string]any {
+	return map[string]any{"version": c.ver, "backend": c.backend, "method": rpcName[c.q.method], "params": c.q.params(c.ver)}
+}
+
+func (c *caseCtx) replay(expected, got string) map[string]any {
+	var l1 any
+	if c.w.l1 != nil {
+		l1 = *c.w.l1
+	}
+	return map[string]any{
+		"scenario": c.s, "round": c.round, "query": c.qi,
+		"history": append([]string{}, c.w.ops...), "chain_height": c.w.height(), "l1_head": l1,
+		"request": c.request(), "expected": expected, "got": got,
+	}
+}
+
+// violate classifies a disagreement between the real answer and the property oracle. The three
+// ways juno's handlers are known to leave the statement have their own signatures (each matched
+// only by its exact shape); anything else gets a signature built from version, method, id kind,
+// argument kind, the class of the expected answer and the class of the answer given.
+func (h *harness) violate(c *caseCtx, exp expectation, got string, resp rpcResp) (string, bool) {
+	q := c.q
+	sig := fmt.Sprintf("%s:%s:want-%s:got-%s", c.ver, q.kindKey(), answerClass(exp.lines[0]), answerClass(got))
+	what := fmt.Sprintf("%s %s(%s) on the %s backend: the chain says %q, the node answers %q", c.ver, rpcName[q.method], paramsText(q, c.ver), c.backend, exp.String(), got)
+	if resp.Code != 0 && resp.Msg != "" {
+		what += " (" + resp.Msg + ")"
+	}
+	stale := false // the answer is a stale trie leaf, which the model does not follow
+	switch {
+	case q.method == "txByIdx" && q.id.kind == "num-missing" && got == errLine(codeInvalidTxIndex) && exp.lines[0] == errLine(codeBlockNotFound):
+		sig = "getTransactionByBlockIdAndIndex-missing-block-number-reports-invalid-index"
+	case isStateMethod(q.method) && q.id != nil && q.id.kind == "hash-zero" && exp.lines[0] == errLine(codeBlockNotFound) &&
+		got == emptyStateAnswer(q.method, c.ver) && (c.backend == "legacy" || c.w.headReaderAnswers(q, c.ver, got)):
+		sig = sigHashZeroEmpty
+	case isStateMethod(q.method) && q.id != nil && q.id.kind == "hash-zero" && exp.lines[0] == errLine(codeBlockNotFound) &&
+		c.backend == "new" && strings.HasPrefix(got, "ok ") && c.w.headReaderAnswers(q, c.ver, got):
+		sig = sigHashZeroHead
+		lq := *q
+		lq.id = &blockID{tag: "latest", kind: "latest"}
+		stale = q.method == "storage" && (c.w.isFormerValue(q, got) || c.w.isRevertedValue(q, got)) && !c.w.expect(&lq, c.ver).accepts(got)
+	case q.method == "storage" && c.backend == "new" && c.w.usesHeadReader(q, c.ver) && exp.accepts("ok 0") && c.w.isFormerValue(q, got):
+		sig = sigStaleSlot
+		stale = true
+	case q.method == "storage" && c.backend == "new" && c.w.usesHeadReader(q, c.ver) && exp.accepts("ok 0") && c.w.isRevertedValue(q, got):
+		sig = sigStaleReverted
+		stale = true
+	}
+	h.res.Violate(lib.Violation{Sig: sig, What: what, Replay: c.replay(exp.String(), got)})
+	return sig, stale
+}
+
+// Signatures of the ways juno is known to leave the statement (known/C08.json).
+const (
+	sigHashZeroEmpty  = "state-read-at-block-hash-zero-answers-as-for-an-empty-state"
+	sigHashZeroHead   = "state-read-at-block-hash-zero-returns-head-state-data-on-new-backend"
+	sigStaleSlot      = "new-backend-head-read-returns-stale-value-of-zeroed-slot"
+	sigStaleReverted  = "new-backend-head-read-returns-value-written-by-reverted-block"
+)
+
+// usesHeadReader: does the handler serve this request from a head reader (`latest`, v8
+// `pending`, and block hash 0x0)?
+func (w *world) usesHeadReader(q *query, ver string) bool {
+	if q.id == nil {
+		return false
+	}
+	return q.id.tag == "latest" || (q.id.tag == "pre" && ver == "v8") || q.id.kind == "hash-zero"
+}
+
+// isFormerValue: is `got` ("ok v", v != 0) a value the slot held at some earlier block of the
+// current chain?
+func (w *world) isFormerValue(q *query, got string) bool {
+	if !strings.HasPrefix(got, "ok ") || got == "ok 0" {
+		return false
+	}
+	for _, st := range w.g.States {
+		if c, ok := st.Contracts[q.addr]; ok {
+			if v, ok := c.Storage[q.key]; ok && "ok "+hxv(v) == got {
+				return true
+			}
+		}
+	}
+	return false
+}
+
+// isRevertedValue: is `got` ("ok v", v != 0) a value that only blocks no longer on the chain wrote
+// to the slot?
+func (w *world) isRevertedValue(q *query, got string) bool {
+	if !strings.HasPrefix(got, "ok ") || got == "ok 0" || w.isFormerValue(q, got) {
+		return false
+	}
+	for v := range w.everWritten[[2]felt.Felt{q.addr, q.key}] {
+		if "ok "+hxv(v) == got {
+			return true
+		}
+	}
+	return false
+}
+
+// headReaderAnswers: is `got` what the handler answers when handed a reader of the head state
+// (what block hash 0x0 yields on the new backend)? Either the answer for `latest`, or, where the
+// handler's own "contract exists" probe is tied to `latest` (v10 getStorageAt), the raw slot
+// value; a stale former value of the slot (see sigStaleSlot) is attributed here too.
+func (w *world) headReaderAnswers(q *query, ver, got string) bool {
+	if w.height() == 0 {
+		return got == emptyStateAnswer(q.method, ver)
+	}
+	lq := *q
+	lq.id = &blockID{tag: "latest", kind: "latest"}
+	if w.expect(&lq, ver).accepts(got) {
+		return true
+	}
+	if q.method == "storage" {
+		return got == "ok 0" || w.isFormerValue(q, got) || w.isRevertedValue(q, got)
+	}
+	return false
+}
+
+// emptyStateAnswer is what a handler answers when it is given the empty (pre-genesis) state.
+func emptyStateAnswer(method, ver string) string {
+	switch method {
+	case "class":
+		return errLine(codeClassNotFound)
+	case "storage":
+		if ver == "v10" {
+			return "ok 0"
+		}
+	}
+	return errLine(codeContractNotFound)
+}
+
+func paramsText(q *query, ver string) string {
+	b, _ := json.Marshal(q.params(ver))
+	return string(b)
+}
+
+// consistency: the same transaction / receipt must render identically through every method that
+// returns it (block with txs, block with receipts, by hash, by block id and index), on every
+// version; and the listing methods must agree on count and order.
+type consistencyPick struct {
+	n  int
+	id *blockID
+}
+
+func consistencyPicks(w *world, r *lib.RNG, sp scenarioParams) []consistencyPick {
+	var out []consistencyPick
+	if w.height() == 0 {
+		return out
+	}
+	for k := 0; k < sp.consistBlk; k++ {
+		n := r.Intn(w.height())
+		if k == 0 {
+			n = w.height() - 1
+		}
+		id := &blockID{tag: "number", num: uint64(n), kind: "num-existing"}
+		if r.Bool() {
+			id = &blockID{tag: "hash", hash: *w.g.Bundles[n].Block.Hash, kind: "hash-existing"}
+		}
+		out = append(out, consistencyPick{n, id})
+	}
+	return out
+}
+
+func (h *harness) consistency(s, round int, w *world, picks []consistencyPick) {
+	for _, pk := range picks {
+		n, id := pk.n, pk.id
+		b := w.g.Bundles[n]
+		for _, ver := range versions {
+			for ni, node := range w.nodes {
+				report := func(what string) {
+					q := &query{method: "blockTxs", id: id}
+					ctx := &caseCtx{s: s, round: round, qi: -1, w: w, q: q, ver: ver, backend: backendName[ni]}
+					h.res.Violate(lib.Violation{Sig: "inconsistent:" + ver + ":" + fieldOf(what),
+						What:   fmt.Sprintf("%s on the %s backend, block %d: %s", ver, backendName[ni], n, what),
+						Replay: ctx.replay("the same rendering through every method", what)})
+				}
+				get := func(method string, params any) jobj {
+					resp := node.call(ver, method, params)
+					if resp.Broken != "" || resp.Code != 0 {
+						report(fmt.Sprintf("%s: unexpected failure code=%d %s%s", method, resp.Code, resp.Msg, resp.Broken))
+						return nil
+					}
+					v, err := decodeJSON(resp.Result)
+					if err != nil {
+						report(method + ": malformed result")
+						return nil
+					}
+					o, _ := v.(jobj)
+					return o
+				}
+				bt := get("starknet_getBlockWithTxs", []any{id.json(ver)})
+				br := get("starknet_getBlockWithReceipts", []any{id.json(ver)})
+				if bt == nil || br == nil {
+					continue
+				}
+				txs, _ := bt["transactions"].([]any)
+				rcs, _ := br["transactions"].([]any)
+				if len(txs) != len(b.Block.Transactions) || len(rcs) != len(b.Block.Transactions) {
+					report(fmt.Sprintf("transaction-count: block has %d, getBlockWithTxs lists %d, getBlockWithReceipts lists %d", len(b.Block.Transactions), len(txs), len(rcs)))
+					continue
+				}
+				for i, tx := range b.Block.Transactions {
+					h.checked++
+					h.res.Hit("consistency:tx")
+					to, _ := txs[i].(jobj)
+					pair, _ := rcs[i].(jobj)
+					if to == nil || pair == nil {
+						report("transaction-shape: not an object")
+						continue
+					}
+					inRc, _ := pair["transaction"].(jobj)
+					rcIn, _ := pair["receipt"].(jobj)
+					byHash := get("starknet_getTransactionByHash", []any{tx.Hash().String()})
+					byIdx := get("starknet_getTransactionByBlockIdAndIndex", []any{id.json(ver), i})
+					rcByHash := get("starknet_getTransactionReceipt", map[string]any{"transaction_hash": tx.Hash().String()})
+					if byHash == nil || byIdx == nil || rcByHash == nil || inRc == nil || rcIn == nil {
+						continue
+					}
+					ref := normTx(to)
+					for name, o := range map[string]jobj{"getTransactionByHash": byHash, "getTransactionByBlockIdAndIndex": byIdx, "getBlockWithReceipts": inRc} {
+						if normTx(o) != ref {
+							report(fmt.Sprintf("transaction-rendering: index %d differs between getBlockWithTxs and %s", i, name))
+						}
+					}
+					for name, o := range map[string]jobj{"getTransactionByHash": byHash, "getTransactionByBlockIdAndIndex": byIdx, "getBlockWithTxs": to} {
+						if got, _ := o["transaction_hash"].(string); !sameFelt(got, tx.Hash()) {
+							report(fmt.Sprintf("transaction-hash: index %d: %s gives %s, block holds %s", i, name, got, tx.Hash()))
+						}
+					}
+					// receipt by hash = receipt in block + block info
+					c := jobj{}
+					for k, v := range rcByHash {
+						if k != "block_hash" && k != "block_number" {
+							c[k] = v
+						}
+					}
+					a, _ := json.Marshal(c)
+					bb, _ := json.Marshal(rcIn)
+					if string(a) != string(bb) {
+						report(fmt.Sprintf("receipt-rendering: index %d differs between getTransactionReceipt and getBlockWithReceipts", i))
+					}
+					if p := w.deepReceipt(rcByHash, n, i, true); len(p) > 0 {
+						report("receipt-content: " + strings.Join(p, "; "))
+					}
+					if p := deepTx(byHash, tx, true); len(p) > 0 {
+						report("transaction-content: " + strings.Join(p, "; "))
+					}
+				}
+			}
+		}
+	}
+}
+
+func sameFelt(s string, f *felt.Felt) bool {
+	g, err := new(felt.Felt).SetString(s)
+	return err == nil && g.Equal(f)
 }
